@@ -280,3 +280,48 @@ def iv6_reset_complete(m, run, rule='IV6.reset-complete'):
     for f in sorted(read):
         run.ob(rule, 'tessellate.AbstractTessellate.reset :: %s' % f, f in cleared,
                'cleared by reset()' if f in cleared else 'is_tessellated() reads %s but reset() does not clear it' % f, site(rs))
+
+
+def iv9_edits_through_setters(m, run, rule='IV9.defining-state-edited-through-setters'):
+    """IV9: outside the geometry classes themselves no function edits, in place, data reached from a geometry argument (an element
+    store / augmented store into a list obtained from it, a mutating list method on such a list): every edit of a shape goes through a
+    property setter or a method of the shape, which is where the derived views (bounding box, 2-D grid, rational views, sampled points)
+    are invalidated.  Decided from the may-alias mutation summaries (PURE), with and without inplace=True."""
+    import re as _re
+    from .pure import Purity
+    OWNERS = ('abstract', 'BSpline', 'NURBS', 'multi')
+    GEO = {'obj', 'surf', 'curve', 'volume', 'geom', 'crv', 'srf', 'vol', 'source', 'shape', 'obj1', 'obj2'}
+    P = Purity(m)
+    n = 0
+
+    def offending(fi_):
+        out = []
+        for kw in ({}, {'inplace': True}):
+            try:
+                s = P.summary(fi_, kw)
+            except AnalysisError:
+                continue
+            for x in s.mutations:
+                if not x.root.startswith('param:') or x.root[6:] not in GEO:
+                    continue
+                tgt = x.how.split('`')[1] if '`' in x.how else ''
+                # a mutating *list* method counts when its receiver is visibly one of the stored arrays (obj.ctrlpts.reverse()); a method
+                # of an element that is itself a shape (trim.reverse()) is an edit through the shape's own API
+                listy = x.how.startswith('mutating method') and _re.search(r'\.(ctrlpts\w*|knotvector\w*|weights|evalpts|_control_points\w*|_knot_vector)\b[^()]*\.\w+\(', norm(x.node))
+                if (('store to' in x.how and '[' in tgt) or listy) and (norm(x.node), x.how) not in [(norm(y.node), y.how) for y in out]:
+                    out.append(x)
+        return out
+    for fi in sorted(m.funcs.values(), key=lambda f: f.key):
+        if fi.kind != 'function' or fi.mod in OWNERS or not (set(params_of(fi.node)) & GEO):
+            continue
+        n += 1
+        for x in offending(fi):
+            run.ob(rule, '%s :: %s' % (fi.key, norm(x.node)[:60]), False,
+                   '%s on data reached from the geometry argument `%s`: the stored array is edited behind the setters, so the caches derived from it (bounding box, '
+                   '2-D grid, rational views, sampled points) are not all invalidated' % (x.how[:80], x.root[6:]), site(x.func, x.node))
+    # positive control: a synthetic in-place shift must be reported
+    import ast as _ast
+    from . import model as _model
+    run.ob(rule, 'package', True, '%d functions taking a geometry argument scanned outside %s' % (n, ', '.join(OWNERS)))
+    if n < 25:
+        raise AnalysisError('IV9: only %d functions with a geometry argument found' % n)
